@@ -251,6 +251,11 @@ inductive Val (α : Type)
   | list (l : List (Val α))
   | dict (l : List (String × Val α))
   | ndarray (xs : List α)            -- a plain numeric `np.ndarray` (no units, dtype float)
+  /-- an OBJECT-dtype `np.ndarray` of dimension ≥ 1 (elements: quantities, plain numbers, …; iterating a 2-D object array
+      yields object-dtype rows, i.e. `objarray`s again) -/
+  | objarray (l : List (Val α))
+  /-- a 0-d `np.ndarray` holding one scalar; `isObject` = its dtype is object (a numeric 0-d array holds a plain number) -/
+  | zerod (isObject : Bool) (a : PyVal α)
 
 /-- result of `to_unitless`: numbers in the same container shape (ndarray for list/tuple) -/
 inductive Res (α : Type)
@@ -284,6 +289,24 @@ def toUnitless (v : Val α) (newUnit : PyVal α) : Except Err (Res α) :=
   | .list l => match toUnitlessList l newUnit with
     | .ok r => .ok (.list r)
     | .error e => .error e
+  | .objarray l =>
+    -- units.py 371-381: the shortcut `return value` requires `value.dtype != object`; an object array is ALWAYS converted
+    -- element by element (conversion factor and compatibility check of every element), exactly like a list
+    match toUnitlessList l newUnit with
+    | .ok r => .ok (.list r)
+    | .error e => .error e
+  | .zerod isObject a =>
+    -- 0-d array (after fix d893461): unless the ratio-1 shortcut hands a NUMERIC 0-d array back untouched,
+    -- `if value.ndim == 0: return to_unitless(value[()], new_unit)` — the conversion of its single element
+    let element : Except Err (Res α) := match toUnitlessScalar a newUnit with
+      | .ok x => .ok (.num x)
+      | .error e => .error e
+    if isObject then element
+    else if isUnitlessScalar newUnit then
+      match rescale newUnit (.qty Quantity.dimensionless) with
+      | .error e => .error e
+      | .ok r => if r.eqOne then .ok (.num a.magnitude) else element
+    else element
   | .dict d => match toUnitlessDict d newUnit with
     | .ok r => .ok (.dict r)
     | .error e => .error e
@@ -328,6 +351,8 @@ def isUnitless : Val α → Bool
   | .atom a => isUnitlessScalar a
   | .str => true
   | .ndarray _ => true
+  | .objarray _ => true               -- NOTE `is_unitless` does not look inside an ndarray (no `dimensionality`, not list/tuple/dict)
+  | .zerod _ _ => true
   | .list l => isUnitlessList l
   | .dict d => isUnitlessDict d
 def isUnitlessList : List (Val α) → Bool
